@@ -88,7 +88,7 @@ static void litmus (long rounds) {
 #include <sched.h>
 #define SB_ROUNDS 40000
 typedef struct { volatile pint x; char pad1[60]; volatile pint y; char pad2[60]; volatile ppointer px; char pad3[56]; volatile ppointer py; char pad4[56]; } SbCell;
-static SbCell *sb_cell; static volatile int sb_round[2]; static int sb_api; static unsigned char *sb_res[2];
+static int sb_ncpu = 1; static SbCell *sb_cell; static volatile int sb_round[2]; static int sb_api; static unsigned char *sb_res[2];
 static void sb_pin (int which) {
 	cpu_set_t all, one; int c, n = 0;
 	if (sched_getaffinity (0, sizeof all, &all) != 0) return;
@@ -100,7 +100,7 @@ static void *sb_thread (void *arg) {
 	for (i = 0; i < SB_ROUNDS; i++) {
 		SbCell *c = &sb_cell[i]; int spins = 0; long r;
 		__atomic_store_n (&sb_round[me], i + 1, __ATOMIC_SEQ_CST);
-		while (__atomic_load_n (&sb_round[other], __ATOMIC_SEQ_CST) < i + 1) if (++spins > 50000) { sched_yield (); spins = 0; }
+		while (__atomic_load_n (&sb_round[other], __ATOMIC_SEQ_CST) < i + 1) if (++spins > (sb_ncpu > 1 ? 50000 : 0)) { sched_yield (); spins = 0; }
 		if (sb_api == 0) {
 			if (me == 0) { p_atomic_int_set (&c->x, 1); r = p_atomic_int_get (&c->y); }
 			else { p_atomic_int_set (&c->y, 1); r = p_atomic_int_get (&c->x); }
@@ -114,6 +114,7 @@ static void *sb_thread (void *arg) {
 }
 static void sb_litmus (void) {
 	pthread_t th[2]; int i; long cnt[2][2];
+	{ cpu_set_t all; if (sched_getaffinity (0, sizeof all, &all) == 0) sb_ncpu = CPU_COUNT (&all); }
 	sb_cell = calloc (SB_ROUNDS, sizeof (SbCell)); sb_res[0] = calloc (SB_ROUNDS, 1); sb_res[1] = calloc (SB_ROUNDS, 1);
 	if (!sb_cell || !sb_res[0] || !sb_res[1]) return;
 	for (sb_api = 0; sb_api <= 1; sb_api++) {
@@ -124,6 +125,86 @@ static void sb_litmus (void) {
 		for (i = 0; i < 4; i++) if (cnt[i >> 1][i & 1]) VTM ("\"e\":\"sb\",\"api\":\"%s\",\"r1\":%d,\"r2\":%d,\"count\":%ld", sb_api ? "pointer" : "int", i >> 1, i & 1, cnt[i >> 1][i & 1]);
 	}
 	free (sb_cell); free (sb_res[0]); free (sb_res[1]);
+}
+/* read-modify-write litmus: in every round 2-4 threads leave a spin barrier together and each performs ONE library call on the same
+ * fresh word, with nothing logged in between (taking event numbers around every call, as the mixes above do, keeps the calls
+ * microseconds apart).  Afterwards the results of a round form an outcome; one event per distinct outcome and program. */
+#define RM_ROUNDS 20000
+static int lit_ncpu = 1, lit_rounds = RM_ROUNDS;    /* on a single core the barrier yields at once and fewer rounds are run */
+typedef struct { const char *name; int nth; int ptr; uint64_t init; const char *op[4]; uint64_t a[4], b[4]; } RmProg;
+static const RmProg RMP[] = {
+	{ "countdown2", 2, 0, 2, { "dec_and_test", "dec_and_test" }, { 0 }, { 0 } },
+	{ "countdown3", 3, 0, 3, { "dec_and_test", "dec_and_test", "dec_and_test" }, { 0 }, { 0 } },
+	{ "countdown4of5", 4, 0, 5, { "dec_and_test", "dec_and_test", "dec_and_test", "dec_and_test" }, { 0 }, { 0 } },
+	{ "inc-vs-dec", 3, 0, 2, { "dec_and_test", "dec_and_test", "inc" }, { 0 }, { 0 } },
+	{ "tickets", 4, 0, 0xfffffffe, { "add", "add", "add", "add" }, { 1, 1, 1, 1 }, { 0 } },
+	{ "bits", 4, 0, 0, { "or", "or", "xor", "and" }, { 1, 2, 3, 0xfffffffd }, { 0 } },
+	{ "cas-race", 4, 0, 0, { "cas", "cas", "cas", "cas" }, { 0, 0, 0, 0 }, { 11, 12, 13, 14 } },
+	{ "ptr-tickets", 3, 1, 0xffffffffffffffffULL, { "add", "add", "add" }, { 1, 1, 1 }, { 0 } },
+	{ "ptr-cas-race", 3, 1, 0, { "cas", "cas", "cas" }, { 0, 0, 0 }, { 21, 22, 23 } },
+	{ "ptr-bits", 3, 1, 0, { "or", "xor", "or" }, { 0x100000000ULL, 0x100000001ULL, 4 }, { 0 } },
+};
+typedef struct { volatile pint w; char pad1[60]; volatile ppointer pw; char pad2[56]; } RmCell;
+static RmCell *rm_cell; static const RmProg *rm_p; static volatile int rm_round[4]; static uint64_t *rm_res[4]; static signed char *rm_ok[4];
+static void *rm_thread (void *arg) {
+	int me = (int) (long) arg, i, j; const char *op = rm_p->op[me]; uint64_t a = rm_p->a[me], b = rm_p->b[me];
+	sb_pin (me);
+	for (i = 0; i < lit_rounds; i++) {
+		RmCell *c = &rm_cell[i]; int spins = 0; uint64_t res = 0; int ok = -1;
+		__atomic_store_n (&rm_round[me], i + 1, __ATOMIC_SEQ_CST);
+		for (j = 0; j < rm_p->nth; j++) while (__atomic_load_n (&rm_round[j], __ATOMIC_SEQ_CST) < i + 1) if (++spins > (lit_ncpu > 1 ? 50000 : 0)) { sched_yield (); spins = 0; }
+		if (!rm_p->ptr) {
+			if (!strcmp (op, "dec_and_test")) ok = p_atomic_int_dec_and_test (&c->w) ? 1 : 0;
+			else if (!strcmp (op, "inc")) p_atomic_int_inc (&c->w);
+			else if (!strcmp (op, "add")) res = (uint32_t) p_atomic_int_add (&c->w, (pint) (uint32_t) a);
+			else if (!strcmp (op, "or")) res = p_atomic_int_or ((volatile puint *) &c->w, (puint) a);
+			else if (!strcmp (op, "and")) res = p_atomic_int_and ((volatile puint *) &c->w, (puint) a);
+			else if (!strcmp (op, "xor")) res = p_atomic_int_xor ((volatile puint *) &c->w, (puint) a);
+			else if (!strcmp (op, "cas")) ok = p_atomic_int_compare_and_exchange (&c->w, (pint) (uint32_t) a, (pint) (uint32_t) b) ? 1 : 0;
+		} else {
+			if (!strcmp (op, "add")) res = (uint64_t) p_atomic_pointer_add (&c->pw, (pssize) a);
+			else if (!strcmp (op, "or")) res = p_atomic_pointer_or (&c->pw, (psize) a);
+			else if (!strcmp (op, "and")) res = p_atomic_pointer_and (&c->pw, (psize) a);
+			else if (!strcmp (op, "xor")) res = p_atomic_pointer_xor (&c->pw, (psize) a);
+			else if (!strcmp (op, "cas")) ok = p_atomic_pointer_compare_and_exchange (&c->pw, (ppointer) (uintptr_t) a, (ppointer) (uintptr_t) b) ? 1 : 0;
+		}
+		rm_res[me][i] = res; rm_ok[me][i] = (signed char) ok;
+	}
+	return NULL;
+}
+static void rmw_litmus (void) {
+	pthread_t th[4]; size_t pi; int i, t;
+	{ cpu_set_t all; if (sched_getaffinity (0, sizeof all, &all) == 0) lit_ncpu = CPU_COUNT (&all); lit_rounds = lit_ncpu > 1 ? RM_ROUNDS : 1500; }
+	rm_cell = calloc (RM_ROUNDS, sizeof (RmCell)); if (!rm_cell) return;
+	for (t = 0; t < 4; t++) { rm_res[t] = calloc (RM_ROUNDS, sizeof (uint64_t)); rm_ok[t] = calloc (RM_ROUNDS, 1); if (!rm_res[t] || !rm_ok[t]) return; }
+	for (pi = 0; pi < sizeof RMP / sizeof RMP[0]; pi++) {
+		/* distinct outcomes of this program: key = results + final word */
+		static struct { uint64_t res[4]; signed char ok[4]; uint64_t fin; long count; } out[64]; int nout = 0, n;
+		rm_p = &RMP[pi]; n = rm_p->ptr ? (int) sizeof (psize) / 2 : 2;
+		for (i = 0; i < lit_rounds; i++) { rm_cell[i].w = (pint) (uint32_t) rm_p->init; rm_cell[i].pw = (ppointer) (uintptr_t) rm_p->init; }
+		for (t = 0; t < 4; t++) rm_round[t] = 0;
+		for (t = 0; t < rm_p->nth; t++) pthread_create (&th[t], NULL, rm_thread, (void *) (long) t);
+		for (t = 0; t < rm_p->nth; t++) pthread_join (th[t], NULL);
+		for (i = 0; i < lit_rounds; i++) {
+			uint64_t fin = rm_p->ptr ? (uint64_t) (uintptr_t) rm_cell[i].pw : (uint64_t) (uint32_t) rm_cell[i].w; int k, same;
+			for (k = 0; k < nout; k++) { same = out[k].fin == fin; for (t = 0; same && t < rm_p->nth; t++) same = out[k].res[t] == rm_res[t][i] && out[k].ok[t] == rm_ok[t][i]; if (same) break; }
+			if (k == nout) { if (nout == 64) continue; out[k].fin = fin; out[k].count = 0; for (t = 0; t < rm_p->nth; t++) { out[k].res[t] = rm_res[t][i]; out[k].ok[t] = rm_ok[t][i]; } nout++; }
+			out[k].count++;
+		}
+		for (i = 0; i < nout; i++) {
+			char buf[1024], l1[64], l2[64]; int k = 0;
+			limbs (l1, rm_p->init, n); limbs (l2, out[i].fin, n);
+			k += sprintf (buf + k, "\"e\":\"rmw\",\"prog\":\"%s\",\"init\":%s,\"final\":%s,\"count\":%ld,\"ops\":[", rm_p->name, l1, l2, out[i].count);
+			for (t = 0; t < rm_p->nth; t++) {
+				const char *op = rm_p->op[t]; int hasres = strcmp (op, "dec_and_test") && strcmp (op, "inc") && strcmp (op, "cas"); char la[64], lb[64], lr[64];
+				limbs (la, rm_p->a[t], n); limbs (lb, rm_p->b[t], n); if (hasres) limbs (lr, out[i].res[t], n); else strcpy (lr, "[]");
+				k += sprintf (buf + k, "%s{\"op\":\"%s\",\"a\":%s,\"b\":%s,\"res\":%s,\"ok\":%d}", t ? "," : "", op, la, lb, lr, (int) out[i].ok[t]);
+			}
+			sprintf (buf + k, "]");
+			VTM ("%s", buf);
+		}
+	}
+	free (rm_cell); for (t = 0; t < 4; t++) { free (rm_res[t]); free (rm_ok[t]); }
 }
 int main (int argc, char **argv) {
 	if (argc < 4) return 2;
@@ -154,6 +235,7 @@ int main (int argc, char **argv) {
 		for (i = 1; i <= nth; i++) pthread_join (th[i], NULL);
 		litmus (200000);
 		sb_litmus ();
+		rmw_litmus ();
 		vtm_close ();
 	}
 	p_libsys_shutdown ();
